@@ -31,17 +31,27 @@ VOID_FUN = {"D", "D2", "I", "ABS", "SIGN", "DIODE"}
 LITS = {"0", "1", "2", "3", "0.5"}
 
 
+_ENVN = [0]
+
+
 def env_track(k):
+    """every third track carries its feature values as numpy scalars (features filled from numpy arrays are common)"""
     e = ENVS[k]
     n = e["n"]
+    _ENVN[0] += 1
+    if _ENVN[0] % 3 == 0:
+        import numpy as np
+        conv = np.float64
+    else:
+        conv = float
     from tracklib.core.track import Track
     from tracklib.core.obs import Obs
     from tracklib.core.obs_coords import ENUCoords
     from tracklib.core.obs_time import ObsTime
     t = Track([Obs(ENUCoords(float(e["x"][i]), float(10 + i + 1), float(-(i + 1))), ObsTime(1970, 1, 1, 0, 0, 5 * (i + 1)))
                for i in range(n)])
-    t.createAnalyticalFeature("a", [float(v) for v in e["a"]])
-    t.createAnalyticalFeature("b", [float(v) for v in e["b"]])
+    t.createAnalyticalFeature("a", [conv(v) for v in e["a"]])
+    t.createAnalyticalFeature("b", [conv(v) for v in e["b"]])
     return t
 
 
